@@ -83,7 +83,7 @@ Proof.
        - split; [|reflexivity]. split; [reflexivity|]. split; [reflexivity|]. exists []. reflexivity.
        - split; [|exists it, items; reflexivity]. split; [reflexivity|]. split; [reflexivity|]. exists (it :: items). reflexivity. }
   all: destruct (get_elem_value cfg e) as [[]|er] eqn:HV;
-    (split; [split; [reflexivity | split; [reflexivity | intros items H; discriminate H]] | try reflexivity; try discriminate]).
+    (split; [split; [reflexivity | split; [reflexivity | intros its Hits; discriminate Hits]] | try reflexivity; try discriminate]).
 Qed.
 
 Theorem partition cfg f ds st :
